@@ -215,7 +215,7 @@ qimpl!(reactive_mutiny::ogre_std::ogre_queues::atomic::NonBlockingQueue<u32, 2>)
 qimpl!(reactive_mutiny::ogre_std::ogre_queues::atomic::NonBlockingQueue<u32, 4>);
 qimpl!(reactive_mutiny::ogre_std::ogre_queues::full_sync::NonBlockingQueue<u32, 2>);
 qimpl!(reactive_mutiny::ogre_std::ogre_queues::full_sync::NonBlockingQueue<u32, 4>);
-fn filter_q(tag: &str) -> bool { tag.starts_with("am.") || tag.starts_with("fs.") || tag.starts_with("sync.") }
+fn filter_q(tag: &str) -> bool { tag.starts_with("am.") || tag.starts_with("fs.") || tag.starts_with("sync.") || tag.starts_with("pa.dealloc") }
 
 /// the two stand-alone non-blocking queues (pool + ring of ids): result-level under the scheduler (every ring hook is a
 /// yield point), judged by a FIFO / emptiness / fullness oracle on the real-time order of the calls
@@ -386,7 +386,8 @@ fn main() {
             _ => o.trace.iter().any(|l| l.ends_with("pushed false") || l.ends_with("popped none") || l.ends_with("enq false") || l.ends_with("deq none")) || { let mut spin = false; let mut prev: Option<&String> = None; for l in &o.trace { if l.contains(" st.swap ") { if prev == Some(l) { spin = true } } prev = Some(l); } spin },
         };
         rep.add_run(&o.trace, nontrivial, &cfgkey, &format!("{:?}", o.verdict));
-        if sub != "aqueue" && sub != "fqueue" { out.write_run(&cfg, &o.trace); }
+        if sub == "aqueue" { out.write_run(&format!("cfg model=zerocopy N={} seed={seed} run={i}", if n == 8 { 4 } else { n }), &o.trace); }
+        else if sub != "fqueue" { out.write_run(&cfg, &o.trace); }
         for (k, d) in viol {
             let header = vec![format!("cmd misc sub={sub} runs=1 seedx={seed} choices={}", choices_str(&o.choices)), format!("violation {k}: {d}"), cfg.clone()];
             let path = write_replay(&replay_dir, &format!("{pid}-{sub}-seed{seed}-{k}"), &header, &o.trace);
